@@ -129,7 +129,7 @@ Report(tag, c, vs) == \A v \in vs : PrintT(<<tag, ToJson(Inst(c, v) @@ [devs |->
 \* (without the type, which the reader keeps as text); a difference is drift and tells reader from writer defects
 PushW(f) == IF f.vec THEN "Vec" ELSE IF f.opt \/ f.choice THEN "Option" ELSE "Bare"
 PushShape(fs) == [i \in 1..Len(fs) |-> [xml |-> fs[i].n, attr |-> fs[i].attr, w |-> PushW(fs[i]),
-                                         ns |-> IF fs[i].attr THEN "-" ELSE fs[i].ns]]
+                                         ns |-> IF fs[i].attr THEN "-" ELSE IF fs[i].ns = "null" THEN "unqualified" ELSE fs[i].ns]]
 BuiltShape(fs) == [i \in 1..Len(fs) |-> [xml |-> fs[i].xml, attr |-> fs[i].attr, w |-> fs[i].w,
                                           ns |-> IF fs[i].attr THEN "-" ELSE fs[i].ns]]
 CompFor(kind, ns, name) == {c \in StructComps(S) : UriStr(c.ns) = ns /\ NameXml(c.n) = name
